@@ -132,6 +132,32 @@ def run(eng, rep, tier):
                             empties.add(txt)
             if len(empties) >= 2:
                 atomic = sub
+
+    def _disjuncts(e):
+        if isinstance(e, ast.BoolOp) and isinstance(e.op, ast.Or):
+            return [c for v in e.values for c in _disjuncts(v)]
+        return [e]
+    atomic_block = atomic.body if atomic is not None else None
+    if atomic is None:
+        # the complex case first, leaving by `return`: `if a.content or b.content: ...; return` - what follows is the
+        # atomic case (both tests false: both collections empty)
+        for blk_owner in ast.walk(fu.node):
+            blk = getattr(blk_owner, "body", None)
+            if not isinstance(blk, list):
+                continue
+            for i, sub in enumerate(blk):
+                if not (isinstance(sub, ast.If) and sub.body and isinstance(sub.body[-1], (ast.Return, ast.Raise))):
+                    continue
+                empties = set()
+                for dj in _disjuncts(sub.test):
+                    for x in ast.walk(dj):
+                        if isinstance(x, ast.Attribute) and x.attr in ("content", "_content"):
+                            txt = ast.unparse(x)
+                            if facts_imply_empty({(ast.unparse(dj), False, frozenset())}, txt):
+                                empties.add(txt)
+                if len(empties) >= 2:
+                    atomic = sub
+                    atomic_block = list(sub.orelse) + blk[i + 1:]
     if atomic is None:
         rep.error("R1", "C18.3", fu.qname, "atomic-case-links-nodes", "the atomic case of unify was not found")
     else:
@@ -172,7 +198,7 @@ def run(eng, rep, tier):
                         new.append((links, done))
                 outs = new
             return outs
-        unlinked = [pth for pth in paths(atomic.body) if not pth[0]]
+        unlinked = [pth for pth in paths(atomic_block) if not pth[0]]
         ob.decide("R1", "C18.3", fu, "atomic-case-links-nodes", not unlinked,
                   "every non-refusing path of the atomic case forwards one node to the other",
                   "a success path of the atomic case leaves the two nodes unlinked (e.g. two unbound variables): a value "
@@ -247,8 +273,15 @@ def run(eng, rep, tier):
               site=site_of(prog, fs_, fs_.node))
     rec_u = [ev for ev, _ in calls(su, "unify", own=True)]
     creates = [ev for ev in own(su) if ev.kind == "new" and ev.callee == FS]
+    def _only_if_missing(ev):
+        """the new structure is stored only where the receiver lacks the feature: created under a `not in` test, or as
+        the default of a setdefault()"""
+        if any(" not in " in f[0] and f[1] for f in ev.facts):
+            return True
+        return any(isinstance(c, ast.Call) and isinstance(c.func, ast.Attribute) and c.func.attr == "setdefault" and
+                   any(x is ev.node for a in c.args[1:] for x in ast.walk(a)) for c in ast.walk(ev.func.node))
     ob.decide("R1", "C18.4", fu, "unify-recurses-and-creates",
-              bool(rec_u) and bool(creates) and all(any(" not in " in f[0] and f[1] for f in ev.facts) for ev in creates),
+              bool(rec_u) and bool(creates) and all(_only_if_missing(ev) for ev in creates),
               "unify recurses into every feature of the argument and creates the ones the receiver lacks",
               "unify does not merge the features of its argument", su, site=site_of(prog, fu, fu.node))
 
